@@ -53,7 +53,11 @@ structure Quota where
 /-- a pod object (immutable part) + its `PodInfo` in the quota's `PodCache`. -/
 structure Pod where
   id       : Nat
+  /-- the group whose `PodCache` holds (or last held) the pod's `PodInfo`; PreFilter / Reserve / Unreserve /
+      OnPodDelete are modelled for pods whose current association (`homeOf`) is this group. -/
   quota    : Nat
+  /-- the group named by the pod's quota label. -/
+  label    : Nat
   np       : Bool
   req      : RL
   inCache  : Bool
@@ -63,6 +67,9 @@ structure State where
   dims   : Nat
   quotas : List Quota
   pods   : List Pod
+  /-- koordinator-default-quota, once the history has named it: a pod whose label names no registered group is
+      associated with it (`getPodAssociateQuotaNameAndTreeID`). -/
+  dflt   : Option Nat := none
 
 /-- plugin args `EnableRuntimeQuota`, `EnableCheckParentQuota`. -/
 structure Cfg where
@@ -202,20 +209,50 @@ def podDelete (s : State) (id : Nat) : State :=
           else s.quotas
         pods := setPod s.pods id fun x => { x with inCache := false, assigned := false } }
 
-/-- `OnPodAdd` of a pending pod (no node name): a fresh, unassigned `PodInfo`. -/
+/-- `getPodAssociateQuotaNameAndTreeID`: the labelled group if it is registered, else the default quota. -/
+def homeOf (s : State) (p : Pod) : Nat :=
+  if (findQ s.quotas p.label).isSome then p.label else s.dflt.getD p.label
+
+/-- `OnPodAdd` of a pending pod (no node name): a fresh, unassigned `PodInfo` in the associated group. -/
 def podAdd (s : State) (id : Nat) : State :=
   match findP s.pods id with
   | none => s
   | some p =>
-    match findQ s.quotas p.quota with
+    match findQ s.quotas (homeOf s p) with
     | none => s
     | some _ =>
       if p.inCache then s else
-      { s with pods := setPod s.pods id fun x => { x with inCache := true, assigned := false } }
+      { s with pods := setPod s.pods id fun x => { x with quota := homeOf s p, inCache := true, assigned := false } }
 
 /-- the harness builds a pod object. -/
 def podDef (s : State) (id quota : Nat) (np : Bool) (req : RL) : State :=
-  { s with pods := s.pods ++ [{ id := id, quota := quota, np := np, req := req, inCache := false, assigned := false }] }
+  { s with pods := s.pods ++ [{ id := id, quota := quota, label := quota, np := np, req := req,
+                                inCache := false, assigned := false }] }
+
+/-- a pod sitting in the default quota although its labelled group is registered by now. -/
+def limbo (s : State) (p : Pod) : Bool :=
+  p.inCache && (s.dflt == some p.quota) && (p.label != p.quota) && (findQ s.quotas p.label).isSome
+
+/-- `MigratePod(pod, default, labelled group)` (used side): an assigned pod's usage leaves the default quota's path
+    (masked to ITS max) and enters the labelled group's path (masked to that group's max), self index 0 both
+    times; the `PodInfo` moves with its assigned flag. -/
+def migrateOne (s : State) (p : Pod) : State :=
+  match findQ s.quotas p.quota, findQ s.quotas p.label with
+  | some qd, some qx =>
+    let s1 : State := if p.assigned then
+        { s with quotas := applyDelta s (pathNames s p.quota) (some p.quota) (fun d => -(mreq qd p d))
+                             (fun d => if p.np then -(mreq qd p d) else 0) }
+      else s
+    let s2 : State := if p.assigned then
+        { s1 with quotas := applyDelta s1 (pathNames s1 p.label) (some p.label) (mreq qx p)
+                              (fun d => if p.np then mreq qx p d else 0) }
+      else s1
+    { s2 with pods := setPod s2.pods p.id fun x => { x with quota := x.label } }
+  | _, _ => s
+
+/-- `migrateDefaultQuotaGroupsPod` (one tick, same tree): every pod of the default quota whose labelled group
+    exists by now is migrated (Go ranges over a map; the moves commute, the model takes list order). -/
+def migrate (s : State) : State := (s.pods.filter (limbo s)).foldl migrateOne s
 
 /-- `quotav1.IsZero` on the declared dimensions. -/
 def allZero (D : Nat) (a : Nat → Int) : Bool := (List.range D).all fun d => a d == 0
@@ -307,6 +344,8 @@ inductive Op where
   | reserve (id : Nat)
   | unreserve (id : Nat)
   | podDelete (id : Nat)
+  | setDefault (n : Nat)
+  | migrate
 
 /-- one event; the output is the PreFilter verdict of an `attempt`. -/
 def step (s : State) : Op → State × Option Verdict
@@ -321,5 +360,78 @@ def step (s : State) : Op → State × Option Verdict
   | .reserve id => (reserve s id, none)
   | .unreserve id => (unreserve s id, none)
   | .podDelete id => (podDelete s id, none)
+  | .setDefault n => ({ s with dflt := some n }, none)
+  | .migrate => (migrate s, none)
+
+/-! ### critical sections (`hierarchyUpdateLock`)
+
+One pod's roll-back racing its deletion, at the granularity of the manager's critical sections.  Each of the two
+calls runs "acquire the lock + test `isAssigned`" (one step, the `PodInfo` test is under the quota's own lock),
+"subtract the request from used", "clear the flag / drop the `PodInfo` + release". -/
+
+/-- which side of `hierarchyUpdateLock` an entry point takes. -/
+inductive LockKind where
+  | excl | shared
+deriving DecidableEq, Repr
+
+/-- `UnreservePod` / `ReservePod` take `Lock()`, `OnPodDelete` takes `RLock()` (tied to the source in Ties/C03). -/
+def unreserveLock : LockKind := .excl
+def podDeleteLock : LockKind := .shared
+
+inductive Pc where
+  | start | sub | fin | done
+deriving DecidableEq, Repr
+
+structure LState where
+  /-- how often the pod's request has been subtracted from used -/
+  subs     : Nat
+  assigned : Bool
+  present  : Bool
+  pcU      : Pc   -- the thread running Unreserve(p)
+  pcD      : Pc   -- the thread running OnPodDelete(p)
+deriving DecidableEq, Repr
+
+def lInit : LState := { subs := 0, assigned := true, present := true, pcU := .start, pcD := .start }
+
+def inSection : Pc → Bool
+  | .sub | .fin => true
+  | _ => false
+
+/-- may a thread of kind `k` enter while the other thread (kind `ko`, program counter `pco`) is where it is? -/
+def mayEnter (k ko : LockKind) (pco : Pc) : Bool :=
+  !(inSection pco && (k == .excl || ko == .excl))
+
+/-- one step of the Unreserve thread (`none` = blocked on the lock). -/
+def stepU (kU kD : LockKind) (s : LState) : Option LState :=
+  match s.pcU with
+  | .start =>
+    if !mayEnter kU kD s.pcD then none
+    else if s.present && s.assigned then some { s with pcU := .sub } else some { s with pcU := .done }
+  | .sub => some { s with subs := s.subs + 1, pcU := .fin }
+  | .fin => some { s with assigned := false, pcU := .done }
+  | .done => some s
+
+/-- one step of the OnPodDelete thread. -/
+def stepD (kU kD : LockKind) (s : LState) : Option LState :=
+  match s.pcD with
+  | .start =>
+    if !mayEnter kD kU s.pcU then none
+    else if !s.present then some { s with pcD := .done }
+    else if s.assigned then some { s with pcD := .sub } else some { s with pcD := .fin }
+  | .sub => some { s with subs := s.subs + 1, pcD := .fin }
+  | .fin => some { s with present := false, assigned := false, pcD := .done }
+  | .done => some s
+
+/-- run a schedule (`true` = the Unreserve thread moves); `none` = the schedule asks a blocked thread to move. -/
+def lRun (kU kD : LockKind) : List Bool → LState → Option LState
+  | [], s => some s
+  | b :: bs, s =>
+    match (if b then stepU kU kD s else stepD kU kD s) with
+    | none => none
+    | some s' => lRun kU kD bs s'
+
+def allScheds : Nat → List (List Bool)
+  | 0 => [[]]
+  | n + 1 => (allScheds n).flatMap fun s => [true :: s, false :: s]
 
 end KoordVerif.C03
